@@ -95,10 +95,12 @@ class FakeResponse:
 class TClientHarness:
     impl = 'thread'
 
-    def __init__(self, server_config=None, faults=(), client_kwargs=None, ws_read_timeout=True):
+    def __init__(self, server_config=None, faults=(), client_kwargs=None, ws_read_timeout=True,
+                 latency=2.0 ** -6, app_kwargs=None):
         import engineio
         import engineio.client as ec
-        self.world = TWorld(server_config, ws_read_timeout=ws_read_timeout)
+        self.latency = latency          # virtual time one HTTP round trip / WS connect takes
+        self.world = TWorld(server_config, ws_read_timeout=ws_read_timeout, app_kwargs=app_kwargs)
         self.sched = self.world.sched
         self.clock = self.world.clock
         self.faults = Faults(faults)
@@ -163,6 +165,8 @@ class TClientHarness:
         self.log.http.append(rec)
         f = self.faults.next('http')
         rec['fault'] = f['kind'] if f else None
+        if self.latency:
+            self.sched.block(lambda: False, self.latency, 'latency')
         if f and f['kind'] == 'refuse':
             raise ReqConnectionError('connection refused (scripted)')
         body = data.encode('utf-8') if isinstance(data, str) else (data or b'')
@@ -201,6 +205,8 @@ class TClientHarness:
         self.log.ws.append(rec)
         f = self.faults.next('ws-connect')
         rec['fault'] = f['kind'] if f else None
+        if self.latency:
+            self.sched.block(lambda: False, self.latency, 'latency')
         if f and f['kind'] == 'refuse':
             raise WebSocketException('connection refused (scripted)')
         conn = self.world.ws_open(query, headers=list((opts.get('header') or {}).items()) +
@@ -243,6 +249,22 @@ class TClientHarness:
 
     def next_deadline(self):
         return self.world.next_deadline()
+
+
+    def run_until(self, pred, max_dt):
+        """Let virtual time pass, deadline by deadline, until pred() or max_dt has elapsed."""
+        limit = self.clock.now + max_dt
+        for _ in range(200000):
+            self.settle()
+            if pred():
+                return True
+            nd = self.next_deadline()
+            if nd is None or nd > limit:
+                break
+            self.advance_to(nd)
+        self.advance_to(limit)
+        self.settle()
+        return pred()
 
     def teardown(self):
         self.world.teardown()
@@ -321,9 +343,11 @@ class FakeWS:
 class AClientHarness:
     impl = 'async'
 
-    def __init__(self, server_config=None, faults=(), client_kwargs=None):
+    def __init__(self, server_config=None, faults=(), client_kwargs=None, latency=2.0 ** -6,
+                 app_kwargs=None):
         import engineio
-        self.world = AWorld(server_config)
+        self.latency = latency
+        self.world = AWorld(server_config, app_kwargs=app_kwargs)
         self.loop = self.world.loop
         self.clock = self.world.clock
         self.faults = Faults(faults)
@@ -378,6 +402,22 @@ class AClientHarness:
     def next_deadline(self):
         return self.world.next_deadline()
 
+
+    def run_until(self, pred, max_dt):
+        """Let virtual time pass, deadline by deadline, until pred() or max_dt has elapsed."""
+        limit = self.clock.now + max_dt
+        for _ in range(200000):
+            self.settle()
+            if pred():
+                return True
+            nd = self.next_deadline()
+            if nd is None or nd > limit:
+                break
+            self.advance_to(nd)
+        self.advance_to(limit)
+        self.settle()
+        return pred()
+
     def teardown(self):
         self.world.teardown()
 
@@ -428,6 +468,8 @@ class FakeAioSession:
         h.log.http.append(rec)
         f = h.faults.next('http')
         rec['fault'] = f['kind'] if f else None
+        if h.latency:
+            await asyncio.sleep(h.latency)
         if f and f['kind'] == 'refuse':
             raise aiohttp.ClientConnectionError('connection refused (scripted)')
         body = data.encode('utf-8') if isinstance(data, str) else (data or b'')
@@ -468,6 +510,8 @@ class FakeAioSession:
         h.log.ws.append(rec)
         f = h.faults.next('ws-connect')
         rec['fault'] = f['kind'] if f else None
+        if h.latency:
+            await asyncio.sleep(h.latency)
         if f and f['kind'] == 'refuse':
             raise aiohttp.ClientConnectionError('connection refused (scripted)')
         conn = h.world.ws_open(query, headers=list((headers or {}).items()) + [('Host', netloc)],
